@@ -27,7 +27,7 @@ RULE = ('C03-style histories on Cache / FanoutCache in which handle events are i
         'distinct_nontrivial = distinct (container, event kind, position class) cells + golden (directory, key type, '
         'value mode) cells')
 DISTINCT = ('event_cells', 'golden_cells')
-REQUIRED = ('events_second_handle_during_a_call', 'handles_opened_by_spelling_4', 'handles_opened_by_spelling_5', 'calls_judged', 'events_close', 'events_second_handle', 'events_pickle', 'events_thread', 'events_process',
+REQUIRED = ('events_iteration_left_open', 'events_second_handle_during_a_call', 'handles_opened_by_spelling_4', 'handles_opened_by_spelling_5', 'calls_judged', 'events_close', 'events_second_handle', 'events_pickle', 'events_thread', 'events_process',
             'events_fork', 'events_reset', 'events_opened_under_exclusive_lock', 'rollback_journal_histories', 'settings_read_back', 'fanout_histories', 'deque_events', 'index_events', 'django_events',
             'golden_items_read', 'golden_rows_compared', 'golden_schema_compared', 'jsondisk_histories')
 ASSUMPTIONS = ('the Disk class is a constructor argument, not a stored setting: non-pickle reopen events pass the same '
@@ -202,6 +202,7 @@ def cache_history(dc, sc, res, rng, kind, label):
     steps = [(op, a, (dict(k, enable=bool(cfg['statistics'])) if op == 'stats' else k)) for op, a, k in steps
              if op not in ('reset', 'create_tag_index', 'drop_tag_index')]
     made = {'n': 0}
+    open_iterations = []
 
     def fresh(**kw):
         import pathlib
@@ -257,7 +258,7 @@ def cache_history(dc, sc, res, rng, kind, label):
             drv.real = gen.pick(rng, handles)
             if rng.random() < 0.12:
                 ev = gen.pick(rng, ['close', 'second', 'pickle', 'thread', 'process', 'fork', 'close', 'second_locked',
-                                    'reset', 'second_during_call'])
+                                    'reset', 'second_during_call', 'open_iteration'])
                 pos = 'early' if i < len(steps) / 3 else 'late' if i > 2 * len(steps) / 3 else 'middle'
                 res.seen('event_cells', (kind, ev, pos))
                 drv.history.append(('EVENT', (ev,), {}))
@@ -269,7 +270,17 @@ def cache_history(dc, sc, res, rng, kind, label):
                         'setitem', 'getitem', 'delitem', 'contains', 'len')
                     if settings.get('sqlite_journal_mode', 'wal') != 'wal' or not waits:
                         ev = 'second'
-                if ev == 'close':
+                if ev == 'open_iteration':
+                    # a loop over the keys is begun through the current handle and left unfinished (the iterator stays
+                    # alive): the handle goes on seeing what the others write
+                    it = iter(drv.real) if rng.random() < 0.6 else reversed(drv.real)
+                    try:
+                        next(it)
+                    except StopIteration:
+                        pass
+                    open_iterations.append(it)
+                    res.count('events_iteration_left_open')
+                elif ev == 'close':
                     drv.real.close()
                     res.count('events_close')
                 elif ev == 'second':
